@@ -245,6 +245,7 @@ package parser
 //@   ensures wf(p.Scanner) && p.offset >= old(p.offset)
 //@   ensures errIn(result.1, p.Scanner)
 //@   ensures result.1 == nil ==> node(result.0.Range, p, old(p.offset)) && okDirective(result.0) && measure(p.Scanner) < old(measure(p.Scanner))
+//@   ensures @ownbookings: result.1 == nil && typeIs(result.0.Directive, "directives.Transaction") ==> fresh(dyn(result.0.Directive, "directives.Transaction").Bookings) && live(dyn(result.0.Directive, "directives.Transaction").Bookings)
 //
 // The file: directives in increasing order, pairwise disjoint, each inside the file range with all
 // children inside it; on success the whole remaining text has been consumed (the file range ends at
@@ -253,6 +254,14 @@ package parser
 //@     (forall i int :: {f.Directives[i]} 0 <= i && i < len(f.Directives) ==> within(f.Directives[i].Range, f.Range) && okDirective(f.Directives[i]))
 //@     && (forall i int :: {f.Directives[i]} 0 < i && i < len(f.Directives) ==> f.Directives[i-1].Range.End <= f.Directives[i].Range.Start)
 //
+// ownBookings: the booking arrays of the transactions of a file were allocated by this parse (nothing
+// that existed before shares memory with them).
+//@ def ownBookings(f directives.File) bool := forall i int :: {f.Directives[i]} 0 <= i && i < len(f.Directives) && typeIs(f.Directives[i].Directive, "directives.Transaction")
+//@         ==> fresh(dyn(f.Directives[i].Directive, "directives.Transaction").Bookings) && live(dyn(f.Directives[i].Directive, "directives.Transaction").Bookings)
+//@ def apartBookings(f directives.File) bool := forall i int, j int :: {f.Directives[i], f.Directives[j]} 0 <= i && i < j && j < len(f.Directives)
+//@         && typeIs(f.Directives[i].Directive, "directives.Transaction") && typeIs(f.Directives[j].Directive, "directives.Transaction")
+//@         ==> len(dyn(f.Directives[i].Directive, "directives.Transaction").Bookings) == 0 || len(dyn(f.Directives[j].Directive, "directives.Transaction").Bookings) == 0
+//@             || obj(dyn(f.Directives[i].Directive, "directives.Transaction").Bookings) != obj(dyn(f.Directives[j].Directive, "directives.Transaction").Bookings)
 //@ func (*Parser).ParseFile
 //@   requires wf(p.Scanner)
 //@   callback Callback
@@ -260,7 +269,9 @@ package parser
 //@   ensures wf(p.Scanner) && p.offset >= old(p.offset)
 //@   ensures errIn(result.1, p.Scanner)
 //@   ensures result.1 == nil ==> node(result.0.Range, p, old(p.offset)) && okFile(result.0) && p.current == EOF && result.0.Range.End == len(p.text)
+//@   ensures @own: result.1 == nil ==> fresh(result.0.Directives) && ownBookings(result.0) && apartBookings(result.0)
 //@   loop 1 invariant wf(p.Scanner) && p.offset >= old(p.offset) && s.Start == old(p.offset) && s.Scanner == &p.Scanner && fresh(file.Directives)
+//@   loop 1 invariant ownBookings(file) && apartBookings(file)
 //@   loop 1 invariant forall i int :: {file.Directives[i]} 0 <= i && i < len(file.Directives) ==>
 //@        rangeIn(file.Directives[i].Range, p.Scanner) && s.Start <= file.Directives[i].Range.Start && file.Directives[i].Range.End <= p.offset && okDirective(file.Directives[i])
 //@   loop 1 invariant forall i int :: {file.Directives[i]} 0 < i && i < len(file.Directives) ==> file.Directives[i-1].Range.End <= file.Directives[i].Range.Start
